@@ -152,9 +152,12 @@ impl Evidence {
         replay.to_string().hash(&mut h);
         let path = dir.join(format!("{:016x}.json", h.finish()));
         let doc = json!({"property": self.property, "seed": self.seed, "what": what, "signature": sig, "case": replay});
+        let first = !path.exists() || !self.violations.iter().any(|v| v.get("replay").and_then(|r| r.as_str()) == Some(&path.display().to_string()));
         let _ = std::fs::write(&path, serde_json::to_string_pretty(&doc).unwrap());
-        println!("VIOLATION property={} replay={}", self.property, path.display());
-        eprintln!("  {}: {}", sig, what);
+        if first {
+            println!("VIOLATION property={} replay={}", self.property, path.display());
+            eprintln!("  {}: {}", sig, what);
+        }
         if self.violations.len() < 50 {
             self.violations.push(json!({"what": what, "signature": sig, "replay": path.display().to_string()}));
         }
